@@ -22,6 +22,7 @@ import YadismModel.Generated.TMC
 import YadismModel.Model.Threshold
 import YadismModel.Generated.Threshold
 import YadismModel.Model.Interp
+import YadismModel.Model.Conv
 
 open Yadism Yadism.Proto
 
@@ -381,15 +382,17 @@ def rdThr : RdM String := do
     | none => "-"
   pure s!"{sb (Yadism.Gen.pairGuard.holdsQ env)} {sb (Yadism.Gen.pairGuard.holdsQ envx)} {sgn} {sq (Yadism.Gen.ccLabda.evalQ env)} {sq (Yadism.Gen.ccPoint.evalQ env)}"
 
-/-- `convm point belowSupport hasReg hasSing hasLoc quad pdfAtX loc weight decorated` -/
+/-- `convm eps point belowSupport hasReg hasSing hasLoc quad pdfAtX loc weight decorated`
+(`eps` such that `1 - eps` is the double the code compares with) -/
 def rdConvm : RdM String := do
+  let eps ← rat
   let point ← rat
   let bs ← bool
   let hr ← bool; let hs ← bool; let hl ← bool
   let quad ← rat; let pdf ← rat; let loc ← rat; let w ← rat
   let dec ← bool
   let p : RslParts Rat := ⟨if hr then some 1 else none, if hs then some 1 else none, if hl then some loc else none⟩
-  pure (showRat (operatorEntry Yadism.Gen.convEps point bs (decorate dec p) quad pdf w))
+  pure (showRat (operatorEntry eps point bs (decorate dec p) quad pdf w))
 
 /-- `interp n d grid… m t…` : for every `t`, `basis_0(t) … basis_{n-1}(t)`;
 `interpinfo n d` : `kmin` per interval and the areas of every basis function;
@@ -425,6 +428,34 @@ def rdBelow : RdM String := do
   let xs : Nat → Rat := fun i => g.getD i 0
   let t ← rat
   pure (" ".intercalate ((List.range n).map fun j => showBool (Yadism.Interp.isBelowX xs n d j t)))
+
+/-- `oprow eps n o pid nk { point nw {pid w}… active hasparts v_0 … v_{n-1} }…`:
+the row `orders[(o,0,0,0)][pid]` assembled from the vectors `convolve_vector` returned -/
+def rdOprow : RdM String := do
+  let eps ← rat
+  let n ← nat
+  let o ← nat
+  let pid ← Proto.int
+  let nk ← nat
+  let mut ks : List Yadism.Conv.KernelInput := []
+  for _ in [0:nk] do
+    let point ← rat
+    let nw ← nat
+    let mut ws : List (Int × Rat) := []
+    for _ in [0:nw] do
+      let p ← Proto.int; let w ← rat
+      ws := (p, w) :: ws
+    let active ← bool
+    let hasp ← bool
+    let mut v : Array Rat := #[]
+    for _ in [0:n] do
+      let x ← rat
+      v := v.push x
+    let oi : Yadism.Conv.OrderInput :=
+      { active := active, parts := if hasp then some ⟨some 1, none, none⟩ else none,
+        below := fun _ => false, quad := fun j => v.getD j 0, pdfAt := fun _ => 0 }
+    ks := ks ++ [{ weight := fun q => ((ws.find? fun e => e.1 == q).map (·.2)).getD 0, point := point, orders := fun _ => oi }]
+  pure (" ".intercalate ((Yadism.Conv.operatorRow eps ks o pid n).map showRat))
 
 /-- `kinfo name` : size, maxArg, usesZ -/
 def rdKinfo : RdM String := do
@@ -536,6 +567,7 @@ def handle (op : String) : RdM String := do
   | "kinfo" => rdKinfo
   | "tmcval" => rdTmcval
   | "thr" => rdThr
+  | "oprow" => rdOprow
   | "interp" => rdInterp
   | "interpinfo" => rdInterpInfo
   | "below" => rdBelow
